@@ -5,7 +5,7 @@ import importlib.util, os
 _spec = importlib.util.spec_from_file_location('unit_C16_for_C17', os.path.join(os.path.dirname(__file__), 'C16.py'))
 _c16 = importlib.util.module_from_spec(_spec); _spec.loader.exec_module(_c16)
 
-TUS = {k: _c16.TUS[k] for k in ('tt', 'st')}
+TUS = {k: _c16.TUS[k] for k in ('tt', 'st', 'nst')}
 CFG = dict(_c16.CFG)
 STRUCTS = list(_c16.STRUCTS)
 PRE_STRUCTS = _c16.PRE_STRUCTS
@@ -13,7 +13,7 @@ PRELUDE = _c16.PRELUDE
 STUB_CONTRACTS = set()
 # the same extracted functions as C16, used here with their real bodies only (no contracts)
 KEEP = ('TextTools__isDecimalNumber_c', 'TextTools__isDecimalNumber', 'TextTools__isDecimalInteger', 'TextTools__toInt', 'TextTools__toDouble',
-        'StringTokenizer__ctor_4', 'StringTokenizer__unparseRemainingTokens', 'StringTokenizer__numberOfRemainingTokens', 'StringTokenizer__hasMoreToken')
+        'StringTokenizer__ctor_4', 'StringTokenizer__ctor_0', 'NestedStringTokenizer__ctor_5', 'StringTokenizer__unparseRemainingTokens', 'StringTokenizer__numberOfRemainingTokens', 'StringTokenizer__hasMoreToken')
 FUNCS = [dict(cname=f['cname'], qname=f['qname'], sig=f.get('sig')) for f in _c16.FUNCS if f['cname'] in KEEP]
 
 GRAMMAR = r'''
@@ -62,7 +62,7 @@ def generate_jobs(unit, tier):
     return jobs
 
 LEMMAS = []
-REPLAY = {'re:^b_(number|integer)_grammar': dict(adapter='c17_grammar.cpp')}
+REPLAY = {'re:^b_(number|integer)_grammar': dict(adapter='c17_grammar.cpp'), 're:^b_(tokenize|nested)_': dict(adapter='c17_tokens.cpp')}
 TRUSTED = ['std::string model of stubs/str.h (executable in these runs); fromString<T> unmodelled: the value clause of number conversion is not decided']
 ASSUMPTIONS = ['dec and sci are distinct characters that are neither digits nor signs']
 NOT_DECIDED = ['value returned by toDouble/toInt (iostream extraction), toString round trip, key-value procedures, argument substitution, variable resolution, tables, distribution descriptions (std::map, streams, files)']
@@ -117,4 +117,45 @@ def generate_jobs(unit, tier):
                                      defs='#define LEN %d\n#define DLEN %d\n#define SOLID %d\n#define ALLOWEMPTY %d\n#define STR_BCAP %d\n#define VEC_BCAP %d\n' % (L, dl, solid, allow, L + 3, L + 3),
                                      bound='input length %d over {a,b,",",";"}, %d delimiter byte(s) over {",",";"}, solid=%d, allowEmptyTokens=%d' % (L, dl, solid, allow),
                                      doc='tokenise then re-join with the recorded separators reproduces the input; tokens contain no delimiter; no empty token unless allowed'))
+    return jobs
+
+# ---- nested tokenising never splits inside balanced brackets ------------------------------------------------------------
+H_NEST = r"""
+char in_s[LEN + 1]; char in_d[DLEN + 1];
+static _Bool isdelim(char c) { for (int k = 0; k < DLEN; ++k) if (in_d[k] == c) return 1; return 0; }
+void h(void) {
+  Str s, d, op, cl; s.d = (char*)verif_new_array(STR_BCAP, 1); s.n = LEN; d.d = (char*)verif_new_array(STR_BCAP, 1); d.n = DLEN;
+  op.d = (char*)verif_new_array(2, 1); op.d[0] = '('; op.d[1] = 0; op.n = 1; cl.d = (char*)verif_new_array(2, 1); cl.d[0] = ')'; cl.d[1] = 0; cl.n = 1;
+  for (int i = 0; i < LEN; ++i) { in_s[i] = nondet_char(); __CPROVER_assume(in_s[i] == 'a' || in_s[i] == '(' || in_s[i] == ')' || in_s[i] == ',' || in_s[i] == ';'); s.d[i] = in_s[i]; } s.d[LEN] = 0;
+  for (int i = 0; i < DLEN; ++i) { in_d[i] = nondet_char(); __CPROVER_assume(in_d[i] == ',' || in_d[i] == ';'); d.d[i] = in_d[i]; } d.d[DLEN] = 0;
+  NestedStringTokenizer st; verif_exc = 0;
+  NestedStringTokenizer__ctor_5(&st, &s, &op, &cl, &d, SOLID);
+  /* independent reference, character by character: a delimiter is a split point exactly when the brackets before it are balanced */
+  int bal = 0; _Bool split[LEN + 1]; for (int p = 0; p < LEN; ++p) { split[p] = isdelim(in_s[p]) && bal == 0; if (in_s[p] == '(') bal++; if (in_s[p] == ')') bal--; }
+  __CPROVER_assert(verif_exc == 0 || verif_exc == EXC_Exception, "the nested tokenizer raises nothing but the library's exception");
+  __CPROVER_assert((verif_exc != 0) == (bal != 0), "the nested tokenizer raises exactly when the string has an unclosed block");
+  if (verif_exc == 0) {
+    /* expected tokens: the pieces between split points (non-solid: empty pieces are dropped; solid: kept) */
+    unsigned long t = 0; int start = 0;
+    for (int p = 0; p <= LEN; ++p) if (p == LEN || split[p]) {
+      if (SOLID || p > start) {
+        __CPROVER_assert(t < st.tokens_.n && st.tokens_.d[t].n == (unsigned long)(p - start), "nested tokenising splits at every delimiter outside brackets and never inside balanced brackets (token length)");
+        for (int k = 0; k < LEN; ++k) if (k >= start && k < p && t < st.tokens_.n && st.tokens_.d[t].n == (unsigned long)(p - start)) __CPROVER_assert(st.tokens_.d[t].d[k - start] == in_s[k], "nested tokenising splits at every delimiter outside brackets and never inside balanced brackets (token bytes)");
+        t++; }
+      start = p + 1; }
+    __CPROVER_assert(t == st.tokens_.n, "no other token is produced"); }
+  __CPROVER_assert(0, "verif_canary reachable after call"); }
+"""
+_gen_tok = generate_jobs
+def generate_jobs(unit, tier):
+    jobs = _gen_tok(unit, tier)
+    bodies = [f['cname'] for f in FUNCS]
+    lmax = 4 if tier == 'thorough' else 3
+    for L in range(0, lmax + 1):
+        for solid, dl in ((0, 1), (0, 2), (1, 1)):
+            jobs.append(dict(id='b_nested_len%d_d%d_solid%d' % (L, dl, solid), kind='bounded', mode='bounded', entry='h', bodies=bodies,
+                             harness=H_NEST, unwind=max(L, dl) + 3, timeout=2400,
+                             defs='#define LEN %d\n#define DLEN %d\n#define SOLID %d\n#define STR_BCAP %d\n#define VEC_BCAP %d\n' % (L, dl, solid, max(L, dl) + 1, L + 2),
+                             bound='input length %d over {a,(,),",",";"}, brackets "(" and ")", %d delimiter byte(s) over {",",";"}, solid=%d' % (L, dl, solid),
+                             doc='nested tokenising against a character-level reference: split exactly at the delimiters outside brackets; Unclosed block iff unbalanced'))
     return jobs
